@@ -220,6 +220,8 @@ func (p prim) decodeImpl(b *bin.Buffer) error {
 	return nil
 }
 
+var c20Dirty []byte
+
 func TestC20(t *testing.T) {
 	st := pbt.NewStats("TestC20")
 	defer st.Flush()
@@ -244,7 +246,20 @@ func TestC20(t *testing.T) {
 			nontrivial = true
 			key = fmt.Sprintf("prefix%d;", len(prefix)) + key
 		}
+		// ... and the buffer has been used before: its spare capacity (none, a
+		// little, or enough for everything) is full of another message's bytes
 		var b bin.Buffer
+		if spare := rapid.SampledFrom([]int{0, 0, 16, 300, 70000}).Draw(t, "dirtySpare"); spare > 0 {
+			if cap(c20Dirty) < spare {
+				c20Dirty = make([]byte, spare)
+			}
+			d := c20Dirty[:spare]
+			for i := range d {
+				d[i] = 0xA5
+			}
+			b.Buf = d[:0]
+			key = fmt.Sprintf("dirty%d;", spare) + key
+		}
 		b.Put(prefix)
 		want := append([]byte(nil), prefix...)
 		for _, v := range vals {
